@@ -1583,6 +1583,8 @@ func c20Replay(cfg Config, r *Result, model *c20Model, dir string) {
 		if equal != nil && marks != nil && (class == "ok") != sameSet(marks, equal) {
 			r.Violate(Violation{Kind: "property", Key: rec.Key, Detail: "replayed: Verify's verdict is not `marks are exactly the matching choices`", Input: rec.Input, Impl: class})
 		}
+	case "history":
+		c20ReplayHistory(r, dir, rec.Input)
 	default:
 		r.Note("replay of kind %q is not supported; re-run the tier with the recorded seed", str("kind"))
 	}
@@ -1604,7 +1606,7 @@ func runC20(cfg Config, r *Result) {
 	defer os.RemoveAll(dir)
 	r.Rule = "A: Decrypt(Encrypt(t)) = t for random texts (0..20000 bytes, any Unicode, stray bytes) under 2 fresh key pairs (1024, 2048 bit); for 3 (quick) / 20 (thorough) sealed values single-byte corruptions of the envelope bytes and of the base64 text (thorough: every position, all 255 other values per envelope byte for all 20 values and per base64 character for the first 6, 8 bit flips per character for the rest; quick: a sample of about 55 envelope positions - header, both ends of the RSA part, the whole GCM tag, 24 random - and about 50 base64 positions, all 255 values at the sampled envelope positions of the first value, otherwise the 8 single-bit flips), every truncation of both, and the other private key: result must be rejection or the original text, and the rejection stage must be the one the model predicts under the ideal functionality; model unframe/frame on the real envelopes and on random garbage. " +
 		"B: random Seal/Unseal/Unseal-with-wrong-key sequences on the real front matter vs the model. " +
-		"C: every non-empty subset of letters a..(one beyond the last choice) x every equal/different assignment for 2..5 choices (multiple choice), every single letter of those and z (single choice), in four styles (question evy / choices inline code; question text / choices evy blocks; question evy / choices text blocks; question text / choices = the 2..6 files of a generated txtar archive linked from one list item, exhaustive up to 3 (quick) / 5 (thorough) files, sampled above; plus parse-error / no-parse-error verification over such archives), through markdown files whose outputs are produced by running evy (a choice of the different class is with probability 1/2 a near miss: output differing from the question's only by trailing newlines - printf, an extra bare print, a string ending in \\n -, by a leading/trailing blank or by case; choice outputs are compared exactly), in plain and sealed / wrong key / no key / ignored modes, with the verification field absent, spelled out as match (every plain case is run in both spellings), none, parse-error, no-parse-error, and 13 undocumented values that must be rejected at load time; text answers with white-space variants. " +
+		"C: every non-empty subset of letters a..(one beyond the last choice) x every equal/different assignment for 2..5 choices (multiple choice), every single letter of those and z (single choice), in four styles (question evy / choices inline code; question text / choices evy blocks; question evy / choices text blocks; question text / choices = the 2..6 files of a generated txtar archive linked from one list item, exhaustive up to 3 (quick) / 5 (thorough) files, sampled above; plus parse-error / no-parse-error verification over such archives), through markdown files whose outputs are produced by running evy (a choice of the different class is with probability 1/2 a near miss: output differing from the question's only by trailing newlines - printf, an extra bare print, a string ending in \\n -, by a leading/trailing blank or by case; choice outputs are compared exactly), in plain and sealed / wrong key / no key / ignored modes, with the verification field absent, spelled out as match (every plain case is run in both spellings), none, parse-error, no-parse-error, and 13 undocumented values that must be rejected at load time; text answers with white-space variants. D: histories - 40 (quick) / 400 (thorough) exercise directories of 3-4 program files (print a word, draw a circle; some print the same and draw differently, some the reverse) with 2-5 questions over the same files asking for text output or for the picture (evy:text / evy:svg / evy:source links, result type inferred), right and wrong marks, verified in one process in every order (at most 6 / 30 orders per directory), some questions twice: every verdict against the oracle, the model, and - for a sample and for every disagreement - the verdict of the same file verified alone in a fresh process. " +
 		"non-trivial = non-empty text (A), >= 2 operations (B), every question (C); distinct = distinct canonical case"
 	if cfg.Replay != "" {
 		c20Replay(cfg, r, model, dir)
@@ -1628,6 +1630,9 @@ func runC20(cfg Config, r *Result) {
 	env := &c20Env{cfg: cfg, r: r, model: model, keys: keys, dir: dir}
 	c20Verification(env)
 	c20RepoQuestions(env)
+	t3 := time.Now()
+	c20Histories(env)
+	r.Note("wall: histories %.1fs", time.Since(t3).Seconds())
 	r.Note("wall: envelope %.1fs, front matter %.1fs, verification %.1fs", t1.Sub(t0).Seconds(), t2.Sub(t1).Seconds(), time.Since(t2).Seconds())
 	r.Exhaustive = false
 	r.Note("keys are generated with crypto/rand and Encrypt draws its session key from crypto/rand: the sealed values differ from run to run even with the same VERIF_SEED; every violation's replay input carries the key material and the exact sealed string")
